@@ -1,7 +1,7 @@
 (* Properties_C04.v — C04: storage hints are honoured: nothing the configuration excludes reaches the file.
    [build_qr bp gr tb] is the item (and the table insertions) add_question_response_record derives from a generic
    record under the block parameters in force.  Only statements live here. *)
-Require Import Base Cbor EncoderModel Schema Block BlockProofs Exporter ExporterProofs.
+Require Import Base Cbor EncoderModel Schema Block BlockProofs Exporter ExporterProofs E2ESpec BlockDecode ViewProofs.
 Local Open Scope N_scope.
 
 (* a member of the query/response item whose hint bit is cleared is absent from the stored item — for every hint mask,
@@ -37,6 +37,32 @@ Print Assumptions C04_other_mm.
 Theorem C04_preamble : forall x, exists rest, header_ops x = OArr 3 :: OText cdns_text :: write_val FilePreamble (preamble_val x) ++ rest.
 Proof. intros x. exists [OIndefArr]. reflexivity. Qed.
 Print Assumptions C04_preamble.
+
+(* ON THE READING SIDE, ALL 39 MEMBERS.  Whatever a reader decodes for a stored query/response item — in the block's tables as they are
+   when the block is written, i.e. after any later insertions — has no value in any member whose hint is cleared ([qr_guard]: the
+   query/response bit of the member; for the 17 signature members bit 4 AND their signature-hint bit; sections 11..17): not in the
+   item, not through any table index.  Resource records returned in a section carry a TTL / RDATA only under the RR hints. *)
+Theorem C04_never_returned : forall bp gr tb tb' l i, tb_ext (fst (build_qr bp gr tb)) tb' ->
+  gen_qr (tbs_of_tables tb') (VR (snd (build_qr bp gr tb))) = Some (VR l) -> qr_guard bp i = false -> nth i l None = None.
+Proof. exact decoded_respects_hints. Qed.
+Print Assumptions C04_never_returned.
+Theorem C04_rr_hints : forall hrr g,
+  exp_rr hrr g = VR [Some (oval (rr_name g)); Some (oval (rr_ct g)); (if N.testbit hrr 0 then rr_ttl g else None);
+                     (if N.testbit hrr 1 then rr_rdata g else None)].
+Proof. exact exp_rr_hints. Qed.
+Print Assumptions C04_rr_hints.
+(* over whole histories: a record is stored iff at least one enabled member is present, and what is returned for it is the
+   hint-filtered record (C01_end_to_end); a malformed message contributes nothing unless its hint bit is set *)
+Theorem C04_log_respects_hints : forall bp gr gm,
+  (new_qr bp gr = if filled (exp_qr bp gr) then [VR (exp_qr bp gr)] else []) /\
+  (N.testbit (h_other bp) 0 = false -> new_mm bp gm = []) /\
+  (forall ga k, N.testbit (h_other bp) 1 = false -> new_aec bp ga k = 0).
+Proof.
+  intros bp gr gm. split; [reflexivity|]. split.
+  - intros H. unfold new_mm. rewrite H. reflexivity.
+  - intros ga k H. unfold new_aec. rewrite H. reflexivity.
+Qed.
+Print Assumptions C04_log_respects_hints.
 
 Example C04_nonvacuous :
   let bp := mkBp 1000 10 (262143 - 4) 131071 3 3 in      (* client_port bit cleared *)
